@@ -27,6 +27,8 @@ def plaintext(pc: str, rnd: random.Random) -> bytes:
     if pc == "k4": return bytes(rnd.randrange(256) for _ in range(4096))
     if pc == "binary": return b"\x00\xff\x80" + bytes(rnd.randrange(256) for _ in range(rnd.randrange(1, 300))) + b"\x00"
     if pc == "compressible": return (b"A" * rnd.choice([200000, 255999, 256000])) if rnd.random() < .5 else (b"abc123" * 30000)
+    if pc == "b4090": return bytes(rnd.randrange(256) for _ in range(rnd.choice([4090, 4080, 8180])))
+    if pc == "incompressible": return rnd.randbytes(rnd.choice([256000, 255999, 255960, 255921, 250000]))
     raise ValueError(pc)
 
 
